@@ -12,15 +12,16 @@ Record strig := { sf : option bool;       (* -F f / -T f@filter (Some true), -N 
                   stm : option N;         (* -T f@time=T *)
                   ssz : option N;         (* -T f@size=Z *)
                   str : bool;             (* -T f@trace *)
-                  sc : bool }.            (* -C f / -T f@caller *)
-Definition notrig2 : strig := {| sf := None; sd := None; stm := None; ssz := None; str := false; sc := false |}.
+                  sc : bool;              (* -C f / -T f@caller *)
+                  sl : option bool }.     (* -L: f lies at a location to show (Some true) / to hide (Some false, @hide) *)
+Definition notrig2 : strig := {| sf := None; sd := None; stm := None; ssz := None; str := false; sc := false; sl := None |}.
 
 Definition ftrig2 (g : strig) : trig :=
   {| t_filter := sf g; t_depth := sd g; t_time := stm g; t_size := ssz g;
-     t_trace_on := false; t_trace_off := false; t_trace := str g; t_caller := sc g |}.
-Definition fcfg2 (tg : N -> strig) (szf : N -> N) (fm hc : bool) (gd thr ms : N) (sh : shape) : cfg :=
+     t_trace_on := false; t_trace_off := false; t_trace := str g; t_caller := sc g; t_loc := sl g; t_finish := false |}.
+Definition fcfg2 (tg : N -> strig) (szf : N -> N) (fm hc lm : bool) (gd thr ms : N) (sh : shape) : cfg :=
   {| trig_of := fun a => ftrig2 (tg a); fmode_in := fm; has_caller := hc; gdepth := gd; threshold := thr;
-     max_stack := ms; sym_size := szf; shp := sh |}.
+     max_stack := ms; sym_size := szf; shp := sh; lmode_in := lm |}.
 
 Record sctx2 := { dead2 : bool;      (* inside a notrace function *)
                   scope2 : bool;     (* inside a filter function, or no opt-in filter given *)
@@ -41,8 +42,13 @@ Definition is_some {A} (o : option A) : bool := match o with Some _ => true | No
    the threshold in force is hidden unless one of its callees is shown; with a caller filter (-C, [hc]) a
    selected call is shown only if it is a caller-filter function itself (and passes the time test) or one of its
    callees is shown; a function with the trace action is shown whenever it is selected, whatever the time and
-   caller filters say.  Trigger actions of a function outside every opt-in filter function are not looked at. *)
-Fixpoint sel2 (tg : N -> strig) (szf : N -> N) (hc : bool) (x : sctx2) (d : N) (k : call) : list rec :=
+   caller filters say.  Trigger actions of a function outside every opt-in filter function are not looked at.
+   Location filter (-L, [lm] = some location is named to be shown): a function at a hidden location (@hide), or
+   outside every shown location, is not shown and is no nesting level; what it calls is judged on its own; if
+   it is a filter function the opt-in scope still opens below it (with a fresh depth budget), its other trigger
+   actions are not applied. *)
+Definition loc_hidden (lm : bool) (g : strig) : bool := match sl g with Some b => negb b | None => lm end.
+Fixpoint sel2 (tg : N -> strig) (szf : N -> N) (hc lm : bool) (x : sctx2) (d : N) (k : call) : list rec :=
   match k with
   | Call a t0 t1 kids =>
       if dead2 x then []
@@ -52,6 +58,13 @@ Fixpoint sel2 (tg : N -> strig) (szf : N -> N) (hc : bool) (x : sctx2) (d : N) (
         | Some false => []
         | _ =>
             if is_some (sf g) || scope2 x then
+              if loc_hidden lm g then
+                flat_map (sel2 tg szf hc lm
+                            (if is_some (sf g)
+                             then {| dead2 := false; scope2 := true; budget2 := lim2 x; lim2 := lim2 x;
+                                     cthr2 := cthr2 x; csz2 := csz2 x |}
+                             else x) d) kids
+              else
               let lim' := match sd g with Some n => n | None => lim2 x end in
               let thr' := match stm g with Some t => t | None => cthr2 x end in
               let sz' := match ssz g with Some z => z | None => csz2 x end in
@@ -64,15 +77,15 @@ Fixpoint sel2 (tg : N -> strig) (szf : N -> N) (hc : bool) (x : sctx2) (d : N) (
                              lim2 := lim'; cthr2 := thr'; csz2 := sz' |} in
                 if (0 <? sz') && (szf a <? sz') then
                   (* smaller than the size filter in force: hidden, but it still uses up one nesting level *)
-                  flat_map (sel2 tg szf hc x' d) kids
+                  flat_map (sel2 tg szf hc lm x' d) kids
                 else
-                let ks := flat_map (sel2 tg szf hc x' (d + 1)) kids in
+                let ks := flat_map (sel2 tg szf hc lm x' (d + 1)) kids in
                 if ((thr' <? t1 - t0) && (negb hc || sc g)) || str g || negb (is_nil ks) then E_ a t0 d :: ks ++ [X_ a t1 d] else []
               else
                 (* beyond the depth limit: not shown; a time= trigger still governs what is below *)
-                flat_map (sel2 tg szf hc {| dead2 := false; scope2 := scope2 x; budget2 := budget2 x; lim2 := lim2 x;
+                flat_map (sel2 tg szf hc lm {| dead2 := false; scope2 := scope2 x; budget2 := budget2 x; lim2 := lim2 x;
                                          cthr2 := thr'; csz2 := sz' |} d) kids
-            else flat_map (sel2 tg szf hc x d) kids
+            else flat_map (sel2 tg szf hc lm x d) kids
         end
   end.
 
